@@ -311,6 +311,75 @@ partial def loopLoad (fb : Bool) (side : List V) (l : LoopSpec) (xs : List V) : 
     go (max iters 1) init xs 0
 end
 
+/-! ### executions of nested loops: which stop through their CONDITION before `max` rounds? -/
+
+/-- one execution of a nested loop: position in the body tree, rounds run, max, stopped by the condition -/
+structure LoopEv where
+  path : String
+  rounds : Nat
+  max : Nat
+  condStop : Bool
+
+mutual
+partial def stageEv (path : String) (side : List V) (s : BStage) (st : Int) (xs : List V) : List V × List LoopEv :=
+  match s with
+  | .replay l => let r := loopEv true path false side l xs; ([V.int r.1.1], r.2)
+  | .iterate l => let r := loopEv true path true side l xs; ([V.int r.1.1], r.2)
+  | .iteritems l => let r := loopEv true path true side l xs; (r.1.2, r.2)
+  | .iterboth l => let r := loopEv true path true side l xs; (r.1.2 ++ [V.int r.1.1], r.2)
+  | s => (evalStage side 1 s st xs, [])
+
+partial def bodyEv (path : String) (side : List V) (body : List BStage) (st : Int) (xs : List V) :
+    List V × List LoopEv :=
+  (body.zipIdx.foldl (fun acc (s, i) =>
+    let r := stageEv s!"{path}.{i}" side s st acc.1; (r.1, acc.2 ++ r.2)) (xs, []))
+
+/-- mirrors `loopRun`; `nested`: record this execution -/
+partial def loopEv (nested : Bool) (path : String) (fb : Bool) (side : List V) (l : LoopSpec) (xs : List V) :
+    (Int × List V) × List LoopEv :=
+  match l with
+  | .mk iters init agg cp ck body =>
+    let mx := max iters 1
+    let rec go (n : Nat) (st : Int) (xs : List V) (evs : List LoopEv) : (Int × List V) × List LoopEv :=
+      match n with
+      | 0 => ((st, xs), evs)
+      | n + 1 =>
+        let r := bodyEv path side body st xs
+        let out := r.1
+        let evs := evs ++ r.2
+        let st' := agg.glob st ((projs out).foldl agg.loc 0)
+        let c := cp.eval ck (.int st')
+        if c && n != 0 then go n st' (if fb then out else xs) evs
+        else ((st', out), if nested then evs ++ [⟨path, mx - n, mx, !c⟩] else evs)
+    go mx init xs []
+end
+
+/-- all executions of nested loops of the job, in order -/
+def nestedLoopEvents (job : Job) : List LoopEv :=
+  let st := seqRun job
+  let inp := fun (r : Ref) => (st.get r (some false)).getD []
+  let sideOf := fun (sd : Option Ref) => match sd with | some b => inp b | none => []
+  job.flatMap fun n => match n.kind with
+    | .replay a sd l => (loopEv false s!"n{n.id}" false (sideOf sd) l (inp a)).2
+    | .iterate a sd l => (loopEv false s!"n{n.id}" true (sideOf sd) l (inp a)).2
+    | _ => []
+
+/-- `nested:inner-cond-stop`: some nested loop execution ends through its condition before `max`
+    rounds; `nested:inner-cond-stop-overrun`: moreover the rounds accumulated over consecutive
+    executions of that loop exceed its `max` — a round counter that is not reset when a loop ends
+    through its condition (seed C01-4) then cuts a later execution short -/
+def nestedTags (job : Job) : List String :=
+  let evs := nestedLoopEvents job
+  let early := evs.any fun e => e.condStop && e.rounds < e.max
+  let paths := (evs.map (·.path)).eraseDups
+  let overrun := paths.any fun p =>
+    ((evs.filter (·.path == p)).foldl (fun (acc : Nat × Bool) e =>
+      let bad := acc.2 || (acc.1 > 0 && acc.1 + e.rounds > e.max)
+      let total := acc.1 + e.rounds
+      (if e.condStop && total < e.max then total else 0, bad)) (0, false)).2
+  (if early then ["nested:inner-cond-stop"] else []) ++
+  (if overrun then ["nested:inner-cond-stop-overrun"] else [])
+
 /-- the largest content entering a risky `iterate` anywhere in the job (0 = no risky iterate) -/
 def f18Load (job : Job) : Nat :=
   let st := seqRun job
@@ -388,7 +457,7 @@ def handle (c : Case) : Verdict :=
   let tags := [s!"cfg:{cfgClass}", s!"batch:{(bm.takeWhile Char.isAlpha).toString}"] ++
     (if hosts ≥ 4 then ["cfg:hosts4"] else []) ++
     (if bm.startsWith "a" then [s!"batch:{bm}"] else []) ++
-    (kinds.filter (· != "sink")).map (s!"op:{·}") ++ featureTags job
+    (kinds.filter (· != "sink")).map (s!"op:{·}") ++ featureTags job ++ nestedTags job
   let nontrivial := seq.any fun p => !p.2.isEmpty
   if c.implOut == ["blocked"] && inF18Region job cfg bm then
     -- known engine defect F18 (tracked under C04): the run yields no sinks, nothing is compared
